@@ -565,6 +565,9 @@ func runC05(c *engine.Ctx) {
 
 	// ---- R9 pooled codec recycling (shared with C01.R8): a codec recycled in use re-points another proxy's plaintext at this connection ----
 	checkRecycle(c, "R9")
+
+	// ---- R10 use_encryption of a legacy (ini) file reaches the v1 configuration (shared with C18.R14) ----
+	checkLegacyConversion(c, "R10")
 }
 
 // checkSecretFlows implements R6 with a forward taint from loads of secret fields.
